@@ -550,10 +550,11 @@ Lemma live_mpd_safe fx e a c mpdName nowMS tsbd :
   match c_pph c with Some n => 1 <= n <= 3600 | None => True end ->
   small (c_startS c * 1000) -> small nowMS -> c_startS c * 1000 <= nowMS ->
   match c_stopS c with Some st => c_startS c <= st /\ small (st * 1000) | None => True end ->
+  c_addLocation c = false ->
   is_bad (live_mpd fx e a c mpdName nowMS) = false.
 Proof.
-  intros T TR L S P SS SN LE ST. unfold live_mpd, small in *.
-  destruct (negb (existsb _ _)); [reflexivity|]. rewrite T.
+  intros T TR L S P SS SN LE ST AL. unfold live_mpd, small in *.
+  destruct (negb (existsb _ _)); [reflexivity|]. rewrite T. rewrite AL. cbn [andb].
   destruct (a_loopMS a =? 0) eqn:E0; [lia|].
   destruct (negb (String.eqb (c_drm c) "") && _); [reflexivity|].
   destruct ((c_segTimeline c || c_segTimelineNr c) && _); [reflexivity|].
@@ -875,12 +876,13 @@ Qed.
 
 (** What the request has to satisfy beyond what the parser establishes: segments in one piece, no
     status-code or traffic patterns (their composition is not done), a cue duration whose float
-    ceiling is positive, no clock offset, times far from the int64 limits, and a content part that
+    ceiling is positive, no clock offset, no startrel_/stoprel_ (Location rewriting), times far from the int64 limits, and a content part that
     is not itself the path of an asset. *)
 Definition G_live (e : env) (now : Z) (c : cfg) : Prop :=
   c_complete c = true /\ c_codes c = [] /\ c_traffic c = [] /\ cue_ok c /\ c_timeOffset c = None /\
   small (c_startS c * 1000) /\ small now /\
   match c_stopS c with Some st => small (st * 1000) | None => True end /\
+  c_addLocation c = false /\
   (forall a, In a (e_assets e) -> join "/" (dropZ (c_contentIdx c) (c_parts c)) <> a_path a).
 
 Theorem live_handler_total fx e path nowArg uq :
@@ -895,7 +897,7 @@ Proof.
   destruct (process_url_cfg fx path now) as [c|m|s] eqn:P; [|reflexivity|].
   2:{ exfalso. eapply parser_total_guarded; eauto. }
   specialize (G now c eq_refl P).
-  destruct G as (GC & GD & GT & GQ & GO & GS & GN & GP & GA).
+  destruct G as (GC & GD & GT & GQ & GO & GS & GN & GP & GL & GA).
   pose proof (parser_establishes _ _ _ _ P) as (T & _ & PP & _ & SN & N0).
   pose proof (parser_establishes2 _ _ _ _ P) as ((t & Tt & TR) & SO).
   specialize (PP F3). specialize (SN F4). specialize (SO F7).
